@@ -187,7 +187,8 @@ def evaluate(script, tr):
     cap = int(tr.cfg.get("cap", 0))
     key = {"stage": "New", "cap": cap}
     vs = []
-    sent, got = [], []
+    # cfg presend: values sent right after New returned, before the pump took a step (all complete: at most cap of them)
+    sent, got = [int(x) for x in tr.cfg.get("presend", "").split(",") if x], []
     ended = None          # first cancel / close-by-sender move
     closed_seen = False
     for pos, (mv, res, burst) in enumerate(flat(tr)):
@@ -337,6 +338,11 @@ def run(ctx):
     else:
         n = 6000 if ctx.thorough() else 600
         scripts = CORPUS + [gen_script(ctx.rng) for _ in range(n)]
+        # a pair created under a context that is already done, and sent to at once (at most cap values: they all complete)
+        for cap in [c for c in CAPS if c >= 1] + [1, 4]:
+            k = ctx.rng.randrange(0, cap + 1)
+            vals = ctx.rng.sample(range(1, 200), k)
+            scripts.append("stage=New cap=%d pre=1 presend=%s | x %s z" % (cap, ",".join(map(str, vals)), " ".join(["r0"] * (k + 2))))
         if ctx.thorough():
             scripts += exhaustive()
     # the pipe.New files of the harness are behind a build tag: they need the `closesInOnCancel` / burst hooks of
